@@ -4,7 +4,7 @@
    stated for every scalar interface P : ops T whose [oltb P] is such an order (instance RO: Example
    at the end).  Masks are frequency-major lists of bins (K rows each), mappings lists of index lists;
    [Permutation l (seq 0 K)] = "l is a permutation of 0..K-1". *)
-From Coq Require Import Reals List Arith Bool Permutation.
+From Coq Require Import Reals ZArith List Arith Bool Permutation.
 From PB Require Import Ops Model.PermAlign Proofs.PermAlignAssign Proofs.PermAlignLoop Proofs.PermAlignOracle Proofs.PermAlign.
 Import ListNotations.
 Open Scope nat_scope.
@@ -28,6 +28,21 @@ Theorem C14_optimal_is_perm (T : Type) (ltb : T -> T -> bool) :
   Permutation (optimal_assign ltb K Sc add zero) (seq 0 K).
 Proof. exact (@optimal_assign_is_perm T ltb). Qed.
 Print Assumptions C14_optimal_is_perm.
+
+(* integer score matrices are masked with the dtype minimum `bottom` instead of -inf: still a
+   permutation whenever every entry is above `bottom` ... *)
+Theorem C14_greedy_int_is_perm (K : nat) (Sc : nat -> nat -> Z) (bottom : Z) :
+  (forall i j, i < K -> j < K -> (bottom < Sc i j)%Z) ->
+  greedy_assign_int K Sc bottom = greedy_assign Z.ltb K Sc /\
+  Permutation (greedy_assign_int K Sc bottom) (seq 0 K).
+Proof. exact (fun H => conj (greedy_assign_int_agrees K Sc bottom H) (greedy_assign_int_is_perm K Sc bottom H)). Qed.
+Print Assumptions C14_greedy_int_is_perm.
+(* ... but an integer matrix containing the dtype minimum defeats the masking (boundary of the
+   implementation, outside the property's quantifier over real masks; reported, see fix proposal) *)
+Theorem C14_greedy_int_min_refuted :
+  exists (K : nat) (Sc : nat -> nat -> Z) (bottom : Z), ~ Permutation (greedy_assign_int K Sc bottom) (seq 0 K).
+Proof. exact greedy_int_min_refuted. Qed.
+Print Assumptions C14_greedy_int_min_refuted.
 
 (* aligned[k, f] = mask[mapping[k, f], f] *)
 Theorem C14_apply_mapping_spec (A : Type) (mask : nat -> nat -> A) (mapping : nat -> nat -> nat) (k f : nat) :
